@@ -165,7 +165,7 @@ class Runner:
         return fname
 
     def run(self, fname, switches=()):
-        r = F.run_tool(self.exe, list(switches) + [fname], cwd=self.dir, timeout=30)
+        r = F.run_tool(self.exe, list(switches) + [fname], cwd=self.dir, timeout=30, light=True)
         buffered = "-B" in switches
         diags, others = F.parse_stderr(self.table, r.err, fname, buffered)
         self.seen |= set(d.num for d in diags)
@@ -378,6 +378,15 @@ def work_base(arg):
             return {"ev": ev.partial(), "fails": [], "triggered": {}}
         ev.bump("bases:" + src["origin"])
         bscan = M.scan(base)
+        # which state warnings are in without switches is not part of the statement: faults reported by a WARNING are run
+        # under '-w all', which the usage text documents as "enable"
+        fname = rn.put(base)
+        rw, _d, _o = rn.run(fname, ("-w", "all"))
+        rn.drop(fname)
+        wall_ok = not (rw.sig or rw.timeout or (rw.rc == 2 and "usage:" in rw.err))
+        if not wall_ok:
+            fails.append({"sig": "switch:all-not-accepted", "what": "check-express -w all <valid file> -> %s; stderr %s" % (rw.status, rw.err[:200]),
+                          "text": base, "expect": [], "switches": ["-w", "all"], "kind": "switch"})
         k = 0
         for tname in sorted(M.TEMPLATES):
             seen = set()
@@ -387,9 +396,14 @@ def work_base(arg):
                     continue
                 seen.add(m["text"])
                 k += 1
-                variants = [()]
+                by_warning = all(not table.is_error(table.codes[e["code"]]) for e in m["expect"])
+                if by_warning and not wall_ok:
+                    ev.exclude("fault reported by a WARNING not run: '-w all' is not accepted (reported as switch:all-not-accepted)")
+                    continue
+                pre = ("-w", "all") if by_warning else ()
+                variants = [pre]
                 if tier == "thorough" or k % 3 == 0:
-                    variants.append(("-B",))
+                    variants.append(("-B",) + pre)
                 for sw in variants:
                     expect = m["expect"]
                     probe_only = tname == "non-ascii-byte"
@@ -399,7 +413,7 @@ def work_base(arg):
                         if d.code:
                             triggered[d.code["name"]] = triggered.get(d.code["name"], 0) + 1
                     classes_ = ["template:" + tname, "flavour:" + m["flavour"], "decl:" + str(m["decl"]).split("-len")[0].split("-of-")[0],
-                                "mode:" + ("buffered" if sw else "plain")]
+                                "mode:" + ("buffered" if "-B" in sw else "plain")]
                     if probe_only:
                         classes_.append("non-ascii-byte:" + ("diagnosed" if diags else "silently-skipped"))
                     for e in expect:
@@ -411,7 +425,7 @@ def work_base(arg):
                     for sig, det in probs:
                         if sig == "signal":
                             sig = "signal:" + tname
-                        fails.append({"sig": sig, "what": "[%s/%s%s] %s" % (tname, m["flavour"], " -B" if sw else "", det), "text": m["text"],
+                        fails.append({"sig": sig, "what": "[%s/%s%s] %s" % (tname, m["flavour"], " " + " ".join(sw) if sw else "", det), "text": m["text"],
                                       "expect": [] if probe_only else expect, "switches": list(sw), "kind": "fault", "template": tname})
         # switch part
         rnd = random.Random("%s|switch" % src["rseed"])
@@ -438,7 +452,7 @@ def work_base(arg):
             for sig, det, args in probs:
                 fails.append({"sig": sig, "what": "[%s] %s" % (label, det), "text": text, "expect": [], "switches": args, "kind": "switch"})
         # cocktail's own warnings must quote the generator's names
-        probs, r, diags = run_fault_case(rn, ct, cexp, ("-w", "all"))
+        probs, r, diags = run_fault_case(rn, ct, cexp, ("-w", "all")) if wall_ok else ([], None, [])
         ev.case(common.chash([ct, "-w all"]), True, classes=["template:warning-cocktail"])
         for d in diags:
             if d.code:
@@ -514,7 +528,7 @@ def main(tier, seed):
     ev.bump("no-argument-invocation:" + ("signal" if r.sig else "exit-%s" % r.rc))
     sc0.close()
 
-    n = 60 if tier == "quick" else 400
+    n = 330 if tier == "quick" else 2400
     srcs = M.sources(common.sub_seed(seed, PROP, "schemas"), n, {"expgen": {"max_ent": 8, "max_typ": 6}})
     for p in M.shipped(common.REPO, "unitary"):
         try:
@@ -525,7 +539,7 @@ def main(tier, seed):
     ev.extra["schema_source"] = sorted(set(s["origin"] for s in srcs))
     args = [(i, s, tier, seed, classes) for i, s in enumerate(srcs)]
     results = common.pmap(common.guarded(work_base), args)
-    triggered = {}
+    triggered = {"FILE_UNREADABLE": sum(1 for d in ds if d.code and d.code["name"] == "FILE_UNREADABLE")}
     for status, res in results:
         if status != "ok":
             print("machinery error in a C20 worker:\n" + res)
@@ -591,7 +605,7 @@ def main(tier, seed):
     for fid in ev.known:
         e = [x for x in findings.entries if x.get("id") == fid]
         common.print_known(PROP, e[0]["what"] if e else fid)
-    min_cases = 1500 if tier == "quick" else 10000
+    min_cases = 20000 if tier == "quick" else 150000
     if ev.evaluations < min_cases and rc == 0:
         print("machinery failure: only %d cases executed" % ev.evaluations)
         rc = 3
